@@ -1,10 +1,281 @@
 import NxModel.Nex.RmcServer
+import NxProofs.Rmc
+/-! proofs about the RMC server model (`handle_request` + generated dispatch) -/
 namespace Nx.RmcServer
 open Nx Nx.Rmc
 
-theorem react_unknown_protocol (servers : Registry) (req : Msg) (h : HandleResult)
-    (hp : regLookup req.protocol servers = none) :
-    react servers req h = sendMsg (responseMsg req (errorResult coreNotImplemented) []) := by
-  simp [react, hp]
+/-- the request fields as `RMCMessage.decode` produces them -/
+structure ReqWF (req : Msg) (m : Nat) : Prop where
+  proto : req.protocol < 65536
+  call : req.callId < 4294967296
+  meth : req.method = some m
+
+/-- what the property quantifies over: a handler result that `handle_request` is meant to answer -/
+def Answerable (m : Nat) : HandleResult → Prop
+  | .returned out => m < 32768 ∧ out.length + 12 < 4294967296
+  | .raised (.rmcError c) => 2147483648 ≤ c ∧ c < 4294967296
+  | .raised .base => False
+  | .raised _ => True
+
+theorem bit31_of_nat (e : Nat) (h1 : 2147483648 ≤ e) (h2 : e < 4294967296) : bit31 (e : Int) = true := by
+  unfold bit31
+  have : (0 : Int) ≤ (e : Int) := by omega
+  simp [this]
+  omega
+
+theorem bit31_errorResult (c : Nat) (h : c < 2147483648) : bit31 (errorResult c) = true := by
+  unfold errorResult
+  exact bit31_of_nat _ (by omega) (by omega)
+
+/-- the error form of `RMCMessage.encode` never looks at the `method` field -/
+theorem encode_failure (p c e : Nat) (mm : Option Nat) (hp : p < 65536) (hc : c < 4294967296)
+    (he1 : 2147483648 ≤ e) (he2 : e < 4294967296) :
+    encode { mode := 1, protocol := p, method := mm, callId := c, error := (e : Int), body := [] }
+      = .ok (specEncode (.failure p c e)) := by
+  have hlen : (specProto false p).length ≤ 3 := by rw [specProto_length]; split <;> omega
+  have hbit : hasErrorBit (e : Int) = true := by
+    unfold hasErrorBit
+    have : (e : Int) ≠ -1 := by omega
+    simp [this]
+    omega
+  have h1 : ¬ ((1 : Nat) = 0) := by omega
+  simp only [encode, h1, if_false, encProtocol_resp p hp, bind, Except.bind, pure, Except.pure,
+    specEncode, specFrame, List.append_assoc, hbit]
+  have he0 : (0 : Int) ≤ e := by omega
+  have he3 : (e : Int) < 4294967296 := by omega
+  rw [if_pos trivial, if_pos ⟨he0, he3, hc⟩, if_pos (by simp <;> omega)]
+  simp [u8, b8]
+
+theorem send_failure (req : Msg) (m e : Nat) (w : ReqWF req m) (he1 : 2147483648 ≤ e) (he2 : e < 4294967296) :
+    sendMsg (responseMsg req (e : Int) out) = .sends (specEncode (.failure req.protocol req.callId e)) := by
+  unfold sendMsg responseMsg
+  simp only [bit31_of_nat e he1 he2, Bool.not_true, Bool.false_eq_true, if_false]
+  rw [encode_failure _ _ _ _ w.proto w.call he1 he2]
+
+theorem send_success (req : Msg) (m : Nat) (w : ReqWF req m) (out : Bytes) (hm : m < 32768)
+    (hb : out.length + 12 < 4294967296) :
+    sendMsg (responseMsg req 0x10001 out) = .sends (specEncode (.success req.protocol req.callId m out)) := by
+  unfold sendMsg responseMsg
+  have hb31 : bit31 (0x10001 : Int) = false := by decide
+  simp only [hb31, Bool.not_false, if_true]
+  have := encode_ofSpec (.success req.protocol req.callId m out) ⟨w.proto, w.call, hm, hb⟩
+  simp only [ofSpec] at this
+  rw [w.meth, this]
+
+/-! ### `handle_request`, row by row -/
+section rows
+variable {servers : Registry} {req : Msg} {m : Nat}
+
+theorem react_unregistered (w : ReqWF req m) (hp : regLookup req.protocol servers = none) (h : HandleResult) :
+    react servers req h = .sends (specEncode (.failure req.protocol req.callId 0x80010002)) := by
+  simp only [react, hp]
+  exact send_failure req m _ w (by decide) (by decide)
+
+theorem react_returned (w : ReqWF req m) (hp : regLookup req.protocol servers = some false) (out : Bytes)
+    (hm : m < 32768) (hb : out.length + 12 < 4294967296) :
+    react servers req (.returned out) = .sends (specEncode (.success req.protocol req.callId m out)) := by
+  simp only [react, hp, resultCode]
+  exact send_success req m w out hm hb
+
+theorem react_rmcError (w : ReqWF req m) (hp : regLookup req.protocol servers = some false) (code : Nat)
+    (h1 : 2147483648 ≤ code) (h2 : code < 4294967296) :
+    react servers req (.raised (.rmcError code)) = .sends (specEncode (.failure req.protocol req.callId code)) := by
+  simp only [react, hp, resultCode]
+  exact send_failure req m _ w h1 h2
+
+theorem react_py (w : ReqWF req m) (hp : regLookup req.protocol servers = some false) :
+    react servers req (.raised .typeError) = .sends (specEncode (.failure req.protocol req.callId 0x80040002)) ∧
+    react servers req (.raised .indexError) = .sends (specEncode (.failure req.protocol req.callId 0x80040003)) ∧
+    react servers req (.raised .memoryError) = .sends (specEncode (.failure req.protocol req.callId 0x80040006)) ∧
+    react servers req (.raised .keyError) = .sends (specEncode (.failure req.protocol req.callId 0x80040007)) ∧
+    react servers req (.raised .other) = .sends (specEncode (.failure req.protocol req.callId 0x80040001)) := by
+  refine ⟨?_, ?_, ?_, ?_, ?_⟩ <;> simp only [react, hp, resultCode] <;>
+    exact send_failure req m _ w (by decide) (by decide)
+
+theorem react_noresponse (hp : regLookup req.protocol servers = some true) (h : HandleResult)
+    (hb : h ≠ .raised .base) : react servers req h = .silent := by
+  unfold react
+  simp only [hp]
+  cases h with
+  | returned o => simp [resultCode]
+  | raised e => cases e <;> simp_all [resultCode]
+
+theorem react_base (nr : Bool) (hp : regLookup req.protocol servers = some nr) :
+    react servers req (.raised .base) = .propagates := by
+  simp [react, hp, resultCode]
+
+end rows
+
+/-- the error code the property assigns to each kind of failure (`none`: not an answerable failure) -/
+def tableCode : Exc → Option Nat
+  | .rmcError c => if 2147483648 ≤ c ∧ c < 4294967296 then some c.toNat else none
+  | .typeError => some 0x80040002
+  | .indexError => some 0x80040003
+  | .memoryError => some 0x80040006
+  | .keyError => some 0x80040007
+  | .other => some 0x80040001
+  | .base => none
+
+theorem react_raised {servers : Registry} {req : Msg} {m : Nat} (w : ReqWF req m)
+    (hp : regLookup req.protocol servers = some false) (e : Exc) (code : Nat) (hc : tableCode e = some code) :
+    react servers req (.raised e) = .sends (specEncode (.failure req.protocol req.callId code)) := by
+  obtain ⟨h1, h2, h3, h4, h5⟩ := react_py w hp
+  cases e with
+  | rmcError c =>
+    simp only [tableCode] at hc
+    split at hc
+    · rename_i hr
+      cases hc
+      have hc0 : (0 : Int) ≤ c := by omega
+      have := react_rmcError w hp c.toNat (by omega) (by omega)
+      rwa [Int.toNat_of_nonneg hc0] at this
+    · cases hc
+  | typeError => cases hc; exact h1
+  | indexError => cases hc; exact h2
+  | memoryError => cases hc; exact h3
+  | keyError => cases hc; exact h4
+  | other => cases hc; exact h5
+  | base => cases hc
+
+/-- exactly one well-formed response carrying the request's protocol and call id, or silence for NORESPONSE -/
+theorem react_answer {servers : Registry} {req : Msg} {m : Nat} (w : ReqWF req m) (h : HandleResult)
+    (ha : Answerable m h) :
+    (regLookup req.protocol servers = some true ∧ react servers req h = .silent) ∨
+    (regLookup req.protocol servers ≠ some true ∧
+      ∃ s : Spec, s.WF ∧ react servers req h = .sends (specEncode s) ∧
+        (ofSpec s).mode = 1 ∧ (ofSpec s).protocol = req.protocol ∧ (ofSpec s).callId = req.callId) := by
+  cases hp : regLookup req.protocol servers with
+  | none =>
+    right
+    refine ⟨by simp, .failure req.protocol req.callId 0x80010002, ⟨w.proto, w.call, by decide, by decide⟩,
+      react_unregistered w hp h, rfl, rfl, rfl⟩
+  | some nr =>
+    cases nr with
+    | true =>
+      left
+      refine ⟨rfl, react_noresponse hp h ?_⟩
+      intro e; subst e; exact ha
+    | false =>
+      right
+      refine ⟨by simp, ?_⟩
+      cases h with
+      | returned out =>
+        obtain ⟨hm, hb⟩ := ha
+        exact ⟨.success req.protocol req.callId m out, ⟨w.proto, w.call, hm, hb⟩, react_returned w hp out hm hb, rfl, rfl, rfl⟩
+      | raised e =>
+        cases e with
+        | rmcError c =>
+          obtain ⟨h1, h2⟩ := ha
+          have hc0 : (0 : Int) ≤ c := by omega
+          have := react_rmcError w hp c.toNat (by omega) (by omega)
+          rw [Int.toNat_of_nonneg hc0] at this
+          exact ⟨.failure req.protocol req.callId c.toNat, ⟨w.proto, w.call, by omega, by omega⟩, this, rfl, rfl, rfl⟩
+        | base => exact absurd ha (by simp [Answerable])
+        | typeError => exact ⟨.failure req.protocol req.callId 0x80040002, ⟨w.proto, w.call, by decide, by decide⟩, (react_py w hp).1, rfl, rfl, rfl⟩
+        | indexError => exact ⟨.failure req.protocol req.callId 0x80040003, ⟨w.proto, w.call, by decide, by decide⟩, (react_py w hp).2.1, rfl, rfl, rfl⟩
+        | memoryError => exact ⟨.failure req.protocol req.callId 0x80040006, ⟨w.proto, w.call, by decide, by decide⟩, (react_py w hp).2.2.1, rfl, rfl, rfl⟩
+        | keyError => exact ⟨.failure req.protocol req.callId 0x80040007, ⟨w.proto, w.call, by decide, by decide⟩, (react_py w hp).2.2.2.1, rfl, rfl, rfl⟩
+        | other => exact ⟨.failure req.protocol req.callId 0x80040001, ⟨w.proto, w.call, by decide, by decide⟩, (react_py w hp).2.2.2.2, rfl, rfl, rfl⟩
+
+theorem react_ne_propagates {servers : Registry} {req : Msg} {m : Nat} (w : ReqWF req m) (h : HandleResult)
+    (ha : Answerable m h) : react servers req h ≠ .propagates := by
+  rcases react_answer (servers := servers) w h ha with ⟨_, hs⟩ | ⟨_, s, _, hs, _⟩ <;> simp [hs]
+
+/-- the loop answers every request of a sequence by `react`, independently of the others -/
+theorem serve_eq_map (servers : Registry) (reqs : List (Msg × HandleResult))
+    (hall : ∀ x ∈ reqs, ∃ m, ReqWF x.1 m ∧ Answerable m x.2) :
+    serve servers reqs = reqs.map fun x => react servers x.1 x.2 := by
+  induction reqs with
+  | nil => rfl
+  | cons x rest ih =>
+    obtain ⟨req, h⟩ := x
+    obtain ⟨m, w, ha⟩ := hall (req, h) (by simp)
+    have hne := react_ne_propagates (servers := servers) w h ha
+    have ih' := ih (fun y hy => hall y (by simp [hy]))
+    simp only [serve, List.map_cons]
+    cases hr : react servers req h with
+    | propagates => exact absurd hr hne
+    | sends d => simp [ih']
+    | silent => simp [ih']
+
+theorem serve_append (servers : Registry) (a b : List (Msg × HandleResult))
+    (ha : ∀ x ∈ a, ∃ m, ReqWF x.1 m ∧ Answerable m x.2) :
+    serve servers (a ++ b) = serve servers a ++ serve servers b := by
+  induction a with
+  | nil => rfl
+  | cons x rest ih =>
+    obtain ⟨req, h⟩ := x
+    obtain ⟨m, w, hans⟩ := ha (req, h) (by simp)
+    have hne := react_ne_propagates (servers := servers) w h hans
+    have ih' := ih (fun y hy => ha y (by simp [hy]))
+    simp only [List.cons_append, serve]
+    cases hr : react servers req h with
+    | propagates => exact absurd hr hne
+    | sends d => simp [ih']
+    | silent => simp [ih']
+
+/-! ### the generated dispatch -/
+theorem gen_unknown_method (srv : Server) (mid : Nat) (ex : Option Exc) (u : User)
+    (h : findMethod mid srv.methods = none) : generatedHandle srv mid ex u = notImplemented := by
+  simp [generatedHandle, h]
+
+theorem gen_unsupported (srv : Server) (mid : Nat) (ex : Option Exc) (u : User) (mt : Method)
+    (h : findMethod mid srv.methods = some mt) (hs : mt.supported = false) :
+    generatedHandle srv mid ex u = notImplemented := by
+  simp [generatedHandle, h, hs]
+
+theorem gen_extract_fails (srv : Server) (mid : Nat) (e : Exc) (u : User) (mt : Method)
+    (h : findMethod mid srv.methods = some mt) (hs : mt.supported = true) :
+    generatedHandle srv mid (some e) u = .raised e := by
+  simp [generatedHandle, h, hs]
+
+theorem gen_stub (srv : Server) (mid : Nat) (mt : Method)
+    (h : findMethod mid srv.methods = some mt) (hs : mt.supported = true) :
+    generatedHandle srv mid none .stub = notImplemented := by
+  simp [generatedHandle, h, hs]
+
+theorem gen_raises (srv : Server) (mid : Nat) (e : Exc) (mt : Method)
+    (h : findMethod mid srv.methods = some mt) (hs : mt.supported = true) :
+    generatedHandle srv mid none (.raises e) = .raised e := by
+  simp [generatedHandle, h, hs]
+
+theorem gen_returns_good (srv : Server) (mid : Nat) (enc : HandleResult) (mt : Method)
+    (h : findMethod mid srv.methods = some mt) (hs : mt.supported = true) :
+    generatedHandle srv mid none (.returns .good enc) = if mt.resp = .none then .returned [] else enc := by
+  simp only [generatedHandle, h, hs]
+  cases hr : mt.resp <;> simp
+
+theorem gen_returns_bad (srv : Server) (mid : Nat) (enc : HandleResult) (mt : Method) (sh : Shape)
+    (h : findMethod mid srv.methods = some mt) (hs : mt.supported = true) (hsh : sh ≠ .good)
+    (hr : mt.resp = .single false ∨ mt.resp = .multi) :
+    generatedHandle srv mid none (.returns sh enc) = .raised .other := by
+  simp only [generatedHandle, h, hs]
+  rcases hr with hr | hr <;> simp [hr, hsh]
+
+theorem findMethod_some {mid : Nat} {l : List Method} {mt : Method} (h : findMethod mid l = some mt) :
+    mt ∈ l ∧ mt.id = mid := by
+  induction l with
+  | nil => simp [findMethod] at h
+  | cons a r ih =>
+    simp only [findMethod] at h
+    split at h
+    · cases h; simp_all
+    · have := ih h; simp [this]
+
+/-- with distinct method ids (generated obligation) the table lookup returns *the* entry with that id -/
+theorem findMethod_of_mem {l : List Method} (hd : natsDistinct (l.map (·.id)) = true) {mt : Method} (hm : mt ∈ l) :
+    findMethod mt.id l = some mt := by
+  induction l with
+  | nil => cases hm
+  | cons a r ih =>
+    simp only [List.map_cons, natsDistinct, Bool.and_eq_true, Bool.not_eq_true', List.contains_eq_mem,
+      decide_eq_false_iff_not] at hd
+    simp only [findMethod]
+    rcases List.mem_cons.mp hm with rfl | hm'
+    · simp
+    · have hne : a.id ≠ mt.id := by
+        intro e
+        exact hd.1 (by rw [e]; exact List.mem_map.mpr ⟨mt, hm', rfl⟩)
+      simp [hne, ih hd.2 hm']
 
 end Nx.RmcServer
